@@ -102,6 +102,10 @@ def containers(form, good, bad):
         return [bad, good]
     if form == '(good,bad,good)':
         return (good, bad, good)
+    if form == 'stacked[bad]':         # one array of rank 3 (np.array([M]), what np.stack / a slice of a trajectory array gives)
+        return np.array([np.asarray(bad, dtype=np.float64)])
+    if form == 'stacked[good,bad]':
+        return np.array([np.asarray(good, dtype=np.float64), np.asarray(bad, dtype=np.float64)])
     raise ValueError(form)
 
 
@@ -128,6 +132,9 @@ def run_ctor(ctx, p):
         if p['defect'] == 'none' or d <= BAND:
             ctx.ood('ctor.reject')       # whether single-precision members are accepted is not stated; only rejection beyond the band is
             return
+    if d <= BAND and form.startswith('stacked'):
+        ctx.ood('ctor.reject')          # (a rank-3 array of valid members is not a documented form: accepting or refusing it is not judged)
+        return
     if d <= BAND:
         # near-valid: not judged for rejection; if it is an unperturbed valid member it must be accepted
         if p['defect'] == 'none':
@@ -627,6 +634,8 @@ def run(ctx):
             bad, defect = corrupt(rng, kind, other)
             if cname == 'UnitQuaternion':
                 form = 'bare'          # matrices are accepted by UnitQuaternion only as a bare array
+            elif rng.random() < 0.1:
+                form = ['stacked[bad]', 'stacked[good,bad]'][rng.integers(2)]
         if rng.random() < 0.2:
             bad, defect = (valid_member(rng, kind)[0] if cname not in ('Twist2', 'Twist3') else good), 'none'
         p = dict(cls=cname, form=form, good=good, bad=bad, kind=kind, defect=defect)
